@@ -276,6 +276,26 @@ func runC04(c *core.Ctx) error {
 		b, _ := json.Marshal(ps[i].Project)
 		c.Nontrivial(string(b))
 	})
+	// direction 2: the scanner's event streams for a seeded sample of the printed projects (every layout of C04 and
+	// a sample of Layout.tla's), validated by TLC against JSchemaLex
+	{
+		var texts []string
+		stride := c.Pick(41, 7)
+		for i := range ps {
+			if (i+int(c.Seed))%stride != 0 {
+				continue
+			}
+			l := layouts[(i/stride)%len(layouts)]
+			l.Comments = (i / stride / len(layouts)) % 5
+			if (i/stride)%3 == 0 {
+				l.NL = []string{"\n", "\r\n", "\r"}[(i/stride/3)%3]
+			}
+			texts = append(texts, l.Print(ps[i]))
+		}
+		if err := lexValidate(c, texts, "project"); err != nil {
+			return err
+		}
+	}
 	c.Sample(layouts[2].Print(ps[len(ps)/2]))
 	c.Set("layouts", len(layouts))
 	c.Set("rule", "every finished project of SchemaText.tla (root object of 1-2(3) properties, values from a 13-entry menu incl. references, choices, nested arrays/objects, key shortcuts; annotations from per-value menus incl. nested or/enum/allOf lists, 2^64+1 numbers, notes) printed under every annotation placement (inline //, /* */, /* */ with the note on its own line) x quoted/bare rule names; GetAST() normalised and compared with AstOf. distinct_nontrivial = distinct projects")
@@ -286,6 +306,9 @@ func runC04(c *core.Ctx) error {
 func init() {
 	register(&core.Check{ID: "C04", Level: "model_checking", Run: runC04,
 		Replay: func(c *core.Ctx, raw json.RawMessage) ([]core.Finding, error) {
+			if fs, ok := lexReplay(raw); ok {
+				return fs, nil
+			}
 			var cs stCase
 			if err := json.Unmarshal(raw, &cs); err != nil {
 				return nil, err
